@@ -4,9 +4,11 @@
 // round and at idle), run on the real classes with a real event::Loop, checked against a reference model + quiescence invariants.
 // Coroutine scheduling is deterministic, so scripts x main schedules is the whole space.
 // The first mid-run cleanup() does not end a run: the program's routines are created again on the SAME Scheduler and primitives
-// (second session; the model carries the channel contents, semaphore units and mutex holder over), then the schedule goes on.
+// (second session; the model carries the channel contents, semaphore units and mutex holder over), then the schedule goes on. The
+// second session starts either in the same loop callback (`cleanup`) or after the loop has had a turn (`cleanup+turn`).
+// Every run ends with the DESTRUCTION of the Scheduler while routines may still be alive (instead of an explicit final cleanup()).
 //
-//   harness enum <tag> <ops,comma-separated> <NR> <maxlen> <maxacts> <param> <part> <nparts> [max total steps [flags: nomain,noreuse]]
+//   harness enum <tag> <ops,comma-separated> <NR> <maxlen> <maxacts> <param> <part> <nparts> [max total steps [flags: nomain,noreuse,create,stackdefault]]
 //   harness replay "<replay text of a @VIOL line>"          (prints the trace, the idle state and the violations of that one run)
 //
 // Oracle = property C18 statement only:
@@ -18,7 +20,8 @@
 //       a condition value posted between add() and wait() has happened (the set is reduced whether or not somebody waits yet)
 //   * cancel(r) / cleanup(): every started routine returns failure from its blocking call and terminates; conversely recv / lock /
 //     acquire / broadcast-wait report failure only to a routine that was cancelled or cleaned up
-//   * join returns success only once its target has finished
+//   * join returns success only once its target has finished; Condition::wait / join refuse only when the model says they may
+//   * ready routines are run: a scheduler round follows within a few loop turns (otherwise the wake-up / create / cancel is lost)
 //   * a routine created suspended (run_now = false) need not start until somebody resumes or cancels it; after that it must
 // Routines check the return code of every blocking call and leave on failure (releasing a held mutex, as Mutex::Locker would).
 // Signature = <what>[:waiter-still-queued|:waiter-not-queued]:main=<kinds of main-context action needed: resume, cancel, post, reuse>:steps=<program size class>.
